@@ -51,6 +51,11 @@ def main():
         res["demo_fails_with_change"] = rc != 0
         os.remove(os.path.join(wt, demo_rel))
         rc, out = sh(SUITE, wt)
+        tries = 0
+        while rc != 0 and "address already in use" in out and tries < 4:
+            import time; time.sleep(20)
+            rc, out = sh(SUITE, wt)
+            tries += 1
         res["existing_suite_passes"] = rc == 0
         if rc != 0:
             res["suite_tail"] = out[-600:]
